@@ -30,19 +30,23 @@ META = {
 FORMATS = ("crlset", "onecrl", "sst")
 
 
-def gen(ctx, fmt, maxentries, nserials, allvariants, tag):
+def gen(ctx, fmts, maxentries, nserials, allvariants, tag):
+    """One TLC run for the given formats -> {fmt: (ncases, nqueries, queries file, cases file)}."""
     r = ctx.tlc("RevSetsGen", "RevSets_gen.cfg", workers=1, timeout=3000,
-                label="RevSetsGen %s entries<=%d serials=%d" % (fmt, maxentries, nserials),
-                subst={"FORMAT": fmt, "MAXENTRIES": maxentries, "NSERIALS": nserials,
-                       "ALLVARIANTS": "TRUE" if allvariants else "FALSE"})
-    m = re.search(r'<<"CASES", (\d+), (\d+)>>', r.out)
-    if not m:
-        raise Machinery("RevSetsGen printed no case count")
-    q = ctx.path("%s_%s_queries.ndjson" % (tag, fmt))
-    c = ctx.path("%s_%s_cases.ndjson" % (tag, fmt))
+                label="RevSetsGen %s entries<=%d serials=%d" % ("+".join(fmts), maxentries, nserials),
+                subst={"FORMATS": "{" + ", ".join('"%s"' % f for f in fmts) + "}", "MAXENTRIES": maxentries,
+                       "NSERIALS": nserials, "ALLVARIANTS": "TRUE" if allvariants else "FALSE"})
+    q = ctx.path("%s_queries.ndjson" % tag)
     shutil.move(ctx.specfile("revsets_queries.ndjson"), q)
-    shutil.move(ctx.specfile("revsets_cases.ndjson"), c)
-    return int(m.group(1)), int(m.group(2)), q, c
+    res = {}
+    for m in re.finditer(r'<<"CASES", "(\w+)", (\d+), (\d+)>>', r.out):
+        f = m.group(1)
+        c = ctx.path("%s_%s_cases.ndjson" % (tag, f))
+        shutil.move(ctx.specfile("revsets_cases_%s.ndjson" % f), c)
+        res[f] = (int(m.group(2)), int(m.group(3)), q, c)
+    if set(res) != set(fmts):
+        raise Machinery("RevSetsGen wrote cases for %s, wanted %s" % (sorted(res), fmts))
+    return res
 
 
 def run(ctx):
@@ -51,8 +55,13 @@ def run(ctx):
     cands = []
     ncases = nchecks = nontriv = 0
     for tag, maxentries, nserials, allv in plans:
+        # quick: one TLC run for the three formats; thorough: one per format (smaller heaps)
+        groups = [list(FORMATS)] if ctx.quick else [[f] for f in FORMATS]
+        generated = {}
+        for g in groups:
+            generated.update(gen(ctx, g, maxentries, nserials, allv, tag + "".join(x[0] for x in g)))
         for fmt in FORMATS:
-            n, nq, qf, cf = gen(ctx, fmt, maxentries, nserials, allv, tag)
+            n, nq, qf, cf = generated[fmt]
             if n == 0 or nq == 0:
                 raise Machinery("generator produced no cases")
             p = ctx.run(binary, ["replay-gen", qf, cf], timeout=3000)
